@@ -309,7 +309,7 @@ def l2_wait_for(ctx, rep):
                 rep.check(not clash, R, k, s.where, "joins the subscriber thread while holding {%s}; that thread never takes them" % ", ".join(sorted(H)), "joins the subscriber thread while holding %s, which that thread takes" % sorted(clash))
                 # the joined thread's receive is released by disconnection: on every (non-poisoned)
                 # path that reaches the join, the sender taken out of its slot is dropped first
-                pe = ctx.paths(ctx.helper_root(s.body), inline=True)
+                pe = ctx.paths(ctx.helper_root(s.body, need=lambda reach: ctx.reach_has_site(reach, lambda x: x.ck == "std::option::Option::take" and any(st[0] == "field" and st[2] == A.f_ch_tx for st in subterms(ctx.prog.bp(x.body).arg_term(x.bb, 0))))), inline=True)
                 good = True
                 nj = 0
                 for p in pe.paths:
@@ -346,3 +346,29 @@ def _drop_before(ctx, s):
             if any(st[0] == "take" for st in subterms(tt)) and cfg.dominates(i, s.bb):
                 return True
     return False
+
+
+def lk0_blocking_acquisitions(ctx, rep):
+    """every acquisition of a lock of the library waits for it (`lock()`, `read()`, `write()`):
+    a `try_lock` turns contention with another thread - which every property quantifies over -
+    into a skipped operation or, unwrapped, into a panic of the client or the reducer thread"""
+    R = "LK0"
+    from mirq.locks import LOCK_CALLS, default_lock_id
+    from mirq.prov import TRY_LOCKS
+    n = 0
+    bad = 0
+    for s in ctx.prog.sites():
+        if s.ck not in LOCK_CALLS:
+            continue
+        if "fmt::" in (s.body.j.get("impl_trait") or ""):
+            continue  # a Debug/Display impl that peeks with try_lock changes no behaviour
+        n += 1
+        if s.ck in TRY_LOCKS:
+            bad += 1
+            lid = default_lock_id(ctx.prog, s.body, ctx.prog.bp(s.body).arg_term(s.bb, 0), s.fn)
+            rep.note_fn(s.body.path)
+            rep.bad(R, "blocking-acquisition:%s:%s" % (lid, short(s.body.path)), s.where,
+                    "%s on %s: when another thread holds the lock the operation is skipped or (unwrapped) the calling thread panics" % (s.ck.split("::")[-1], lid))
+    if not bad:
+        rep.ok(R, "all-acquisitions-blocking", "", "all %d lock acquisitions in the crate use the blocking call" % n)
+    rep.floor(R, "lock acquisition sites", n, 8)
